@@ -298,6 +298,11 @@ theorem step_spec {nd : Node} (c : Cfg) (inv : NodeInv nd) (op : Op) (hr : op.is
   | reopen => cases hr
   | metaFlushCrash k => cases hr
   | indexFlushCrash sh k => cases hr
+  | metaFlushFail k =>
+    obtain ⟨a, _, v, s, _⟩ := metaFlushPrefix_spec inv.md k
+    refine ⟨⟨a, fun j => by show ShardInv ((nd.metaFlushPrefix k).shards j); rw [s]; exact inv.sh j⟩, ?_,
+      fun _ _ h _ => (by cases h), fun _ _ h _ => (by cases h)⟩
+    exact mono_meta_frame (fun key i h => by show (nd.metaFlushPrefix k).mview key = some i; rw [v]; exact h) s
 
 /-- reopen, or a crash after a prefix of a metadata / index flush, followed by recovery -/
 theorem recover_step_spec {nd : Node} (c : Cfg) (inv : NodeInv nd) (op : Op) (hr : op.isRecover = true) :
@@ -366,5 +371,6 @@ theorem recover_step_spec {nd : Node} (c : Cfg) (inv : NodeInv nd) (op : Op) (hr
   | metaFlush => cases hr
   | indexPrepare _ => cases hr
   | indexFlush _ => cases hr
+  | metaFlushFail _ => cases hr
 
 end LinVerif.IdAssign
